@@ -2,6 +2,9 @@
 
 use std::sync::atomic::{AtomicPtr, Ordering};
 
+#[cfg(rescrv_blue_verif)]
+pub mod verif;
+
 /////////////////////////////////////////////// Node ///////////////////////////////////////////////
 
 struct Node<T> {
@@ -28,6 +31,8 @@ mod node_ptr {
     use super::Node;
 
     fn deref<'a, T>(ptr: *mut Node<T>) -> &'a Node<T> {
+        #[cfg(rescrv_blue_verif)]
+        crate::verif::reg_deref(ptr as usize);
         unsafe { &*ptr }
     }
 
@@ -54,22 +59,44 @@ pub struct List<T> {
 impl<T> List<T> {
     pub fn prepend(&self, data: T) {
         let node: *mut Node<T> = Box::leak(Box::new(Node::new(data)));
+        #[cfg(rescrv_blue_verif)]
+        crate::verif::reg_alloc(node as usize);
+        #[cfg(rescrv_blue_verif)]
+        crate::verif::emit("alloc", [node as u64, 0, 0, 0, 0]);
         loop {
+            #[cfg(rescrv_blue_verif)]
+            crate::verif::point();
             let head = self.head.load(Ordering::Acquire);
+            #[cfg(rescrv_blue_verif)]
+            crate::verif::emit("head", [head as u64, 0, 0, 0, 0]);
+            #[cfg(rescrv_blue_verif)]
+            crate::verif::point();
             node_ptr::set_next(node, head);
+            #[cfg(rescrv_blue_verif)]
+            crate::verif::emit("store", [node as u64, head as u64, 0, 0, 0]);
+            #[cfg(rescrv_blue_verif)]
+            crate::verif::point();
             if self
                 .head
                 .compare_exchange(head, node, Ordering::SeqCst, Ordering::SeqCst)
                 == Ok(head)
             {
+                #[cfg(rescrv_blue_verif)]
+                crate::verif::emit("cas", [head as u64, node as u64, 1, 0, 0]);
                 return;
             }
+            #[cfg(rescrv_blue_verif)]
+            crate::verif::emit("cas", [head as u64, node as u64, 0, 0, 0]);
         }
     }
 
     pub fn iter(&self) -> impl Iterator<Item = &T> + '_ {
         let _list = self;
+        #[cfg(rescrv_blue_verif)]
+        crate::verif::point();
         let node = self.head.load(Ordering::Acquire);
+        #[cfg(rescrv_blue_verif)]
+        crate::verif::emit("head", [node as u64, 0, 0, 0, 0]);
         ListIterator { _list, node }
     }
 }
@@ -87,6 +114,8 @@ impl<T> Drop for List<T> {
         while !ptr.is_null() {
             let to_drop = ptr;
             ptr = node_ptr::get_next(ptr);
+            #[cfg(rescrv_blue_verif)]
+            crate::verif::reg_free(to_drop as usize);
             drop(unsafe { Box::from_raw(to_drop) });
         }
     }
@@ -109,7 +138,13 @@ impl<'a, T> Iterator for ListIterator<'a, T> {
             // SAFETY(rescrv):  We hold an &'a List<T>.
             // This guarantees the list will not deallocate out from under us.
             let data = node_ptr::data(self.node);
+            #[cfg(rescrv_blue_verif)]
+            let from = self.node;
+            #[cfg(rescrv_blue_verif)]
+            crate::verif::point();
             self.node = node_ptr::get_next(self.node);
+            #[cfg(rescrv_blue_verif)]
+            crate::verif::emit("load", [from as u64, self.node as u64, 0, 0, 0]);
             Some(data)
         }
     }
